@@ -75,7 +75,7 @@ def run_shard(spec, rng, ctx):
     end = C.budget(spec)
     i = 0
     try:
-        while i < spec["max_cases"] and time.time() < end:
+        while i < spec["max_cases"] and C.now() < end:
             judge(draw(rng), ctx)
             i += 1
     finally:
